@@ -224,6 +224,10 @@ Definition is_stopret (x : event) : bool := match x with EvStopRet _ => true | _
 Fixpoint after (P : event -> bool) (e : list event) : list event :=
   match e with [] => [] | x :: r => if P x then r else after P r end.
 
+Definition not_accept (x : event) : Prop := match x with EvAccept _ _ => False | _ => True end.
+Definition after_stop_ok (x : event) : Prop :=
+  match x with EvStart _ _ | EvTake _ _ | EvAccept _ _ => False | _ => True end.
+
 (* run(k) calls of a program, of what a client still has to do, of all programs *)
 Definition runs_of (ops : list uop) : list task := flat_map (fun o => match o with URun k => [k] | _ => [] end) ops.
 Definition submitted (progs : list (list uop)) : list task := flat_map runs_of progs.
